@@ -26,6 +26,14 @@ def generate(rng, i, tier):
         sc = livegen.gen_live(rng, "C12" if rng.random() < 0.5 else "C11")
         sc.pop("crash_at", None)
         sc.pop("foreign_bets", None)
+        import random
+
+        side = random.Random("c15-live|%d" % rng.getrandbits(32))
+        if side.random() < 0.4:
+            # bets of another instance of the strategy shown by the order stream part-way; some were already replaced by
+            # that instance (original and replacement under one reference, in one message)
+            for _ in range(side.choice([1, 2])):
+                sc["exchange_events"].insert(side.randint(0, len(sc["exchange_events"])), {"type": "sibling_bet", "market": side.randrange(len(sc["markets"])), "strategy": side.randrange(len(sc["strategies"])), "runner": side.randrange(3), "side": side.choice(["BACK", "LAY"]), "replaced": side.random() < 0.6})
         return sc
     return lifecycle_common.scenario(rng, ID)
 
